@@ -40,6 +40,89 @@ def _is_info_col1(P, fn, o, depth=0):
     return False
 
 
+def _mentions(P, f, o, pred, depth=0):
+    """some instruction in the operand's expression tree (through casts, arithmetic, loads of single-assignment locals, call arguments) satisfies pred"""
+    if o.get("k") != "inst" or depth > 8:
+        return False
+    o = rules.resolve_local(f, o)
+    if o.get("k") != "inst":
+        return False
+    i = f.insts[o["id"]]
+    if pred(i):
+        return True
+    if i.op == "call":
+        return any(_mentions(P, f, a, pred, depth + 1) for a in i.args)
+    if i.op == "load":
+        return _mentions(P, f, i["ptr"], pred, depth + 1)
+    if i.op == "getelementptr":
+        return _mentions(P, f, i["base"], pred, depth + 1)
+    return any(_mentions(P, f, i[k], pred, depth + 1) for k in ("a", "b") if k in i.d and isinstance(i[k], dict))
+
+
+def _release_test(P, f, cond, truth, depth=0):
+    """the branch condition holding with `truth` is (a) equality of a bidib_response_info[..][column] entry with the received type (a value that comes
+    from a parameter), or (b) the age test of the awaited answer (a comparison over difftime / the clock / the entry's creation time)"""
+    if cond.get("k") != "inst" or depth > 6:
+        return False
+    c = f.insts[cond["id"]]
+    if c.op == "xor" and rules.const_of(f, c["b"]) in (1, -1):
+        return _release_test(P, f, c["a"], not truth, depth + 1)
+    if c.op in ("zext", "trunc"):
+        return _release_test(P, f, c["a"], truth, depth + 1)
+    if c.op == "load":
+        o2 = rules.resolve_local(f, cond)
+        return o2 != cond and _release_test(P, f, o2, truth, depth + 1)
+    if c.op == "icmp" and c["pred"] in ("eq", "ne") and rules.const_of(f, c["b"]) == 0 and f.resolve(rules.strip_casts(f, c["a"])) is not None \
+            and f.resolve(rules.strip_casts(f, c["a"])).op in ("icmp", "fcmp", "xor", "load", "call"):
+        inner = f.resolve(rules.strip_casts(f, c["a"]))
+        if inner.op != "call":
+            return _release_test(P, f, rules.strip_casts(f, c["a"]), truth == (c["pred"] == "ne"), depth + 1)
+    if c.op == "call" and c.callee in P.functions and P.functions[c.callee].blocks and P.functions[c.callee].ret == "i1":
+        # a predicate helper: `is_awaited_answer(entry, type)` - true must imply the test inside
+        g = P.functions[c.callee]
+        cell = None
+        for r in g.all_insts():
+            if r.op == "ret" and "val" in r.d:
+                src = rules.load_source(g, r["val"])
+                if src and src[0] == "alloca":
+                    cell = src[1]
+        if not truth:
+            return False
+        for b in g.blocks:
+            t = b.term
+            if t.op == "br" and "cond" in t.d and t["t"] != t.get("f"):
+                for tr in (True, False):
+                    if _release_test(P, g, t["cond"], tr, depth + 1):
+                        return True
+        return False
+    if c.op == "icmp" and c["pred"] in ("eq", "ne"):
+        def is_table(i):
+            return i.op == "getelementptr" and i["base"].get("k") == "global" and i["base"]["name"] == "bidib_response_info"
+        def from_param(o):
+            o = rules.strip_casts(f, o)
+            if rules.resolve_local(f, o).get("k") == "arg":
+                return True
+            src = rules.load_source(f, o)
+            return bool(src) and src[0] == "alloca" and f.param_index_of_alloca(f.insts[src[1]]) is not None
+        for x, y in ((c["a"], c["b"]), (c["b"], c["a"])):
+            if _mentions(P, f, x, is_table) and from_param(y):
+                return (c["pred"] == "eq") == truth
+        return False
+    if c.op in ("fcmp", "icmp"):
+        def is_age(i):
+            if i.op == "call" and i.callee in ("difftime", "time", "clock_gettime"):
+                return True
+            if i.op == "getelementptr":
+                fp = rules.field_path_of_ptr(P, f, {"k": "inst", "id": i.id})
+                return bool(fp) and fp.endswith(".creation_time")
+            return False
+        if _mentions(P, f, c["a"], is_age) or _mentions(P, f, c["b"], is_age):
+            p_ = c["pred"]
+            ge = p_ in ("oge", "ogt", "uge", "ugt", "sge", "sgt")
+            return ge == truth
+    return False
+
+
 def run(chk, w):
     P = w.P
     R = ns.Roles(w)
@@ -158,6 +241,35 @@ def run(chk, w):
                 chk.ok("C03-SYM", 1, {"store": s.loc(), "op": v.op})
             else:
                 chk.violation("C03-SYM", name, ns.CMR, s.loc(), "amount %s the budget is not the table's response size bidib_response_info[type][1]" % ("added to" if v.op == "add" else "released from"))
+
+    # ---- REL: what may release budget
+    chk.rule("C03-REL", "budget is released only for the awaited answer or by expiry: every decrease of the counter is preceded, on every path, by the true edge of "
+                        "'table-defined answer type of the oldest request == received type' or of the age test of that request")
+    from .. import pathwalk
+    nrel = 0
+    for name, stores in sorted(R.cmr_stores.items()):
+        f = P.functions[name]
+        for s in stores:
+            v = f.resolve(rules.strip_casts(f, s["val"]))
+            if v is None or v.op != "sub":
+                continue
+            nrel += 1
+
+            def establishes(br, succ, facts, f=f):
+                if br.op != "br" or "cond" not in br.d:
+                    return False
+                truth = succ == br["t"]
+                return _release_test(P, f, br["cond"], truth)
+            g = pathwalk.guard_on_all_paths(f, s, establishes)
+            if g is None:
+                chk.abstain("C03-REL", "path walk truncated", s.loc())
+            elif g:
+                chk.ok("C03-REL", 1, {"release": s.loc()})
+            else:
+                chk.violation("C03-REL", name, "release", s.loc(), "the budget counter is decreased on a path that passed neither the match of the received type with the oldest request's "
+                              "table-defined answers nor that request's age test: an unrelated message frees budget while the real answer is still outstanding, and more "
+                              "than 48 bytes of answers can be pending")
+    chk.floor("budget_releases", nrel, 2)
 
     fifo_rules(chk, w, R, "C03-FIFO")
 
